@@ -270,4 +270,381 @@ def connectOutcome (cfg : AuthCfg) (payload : Option J) : Server.ConnRes :=
   if admitsWire cfg payload then .accept
   else .refuse [.str "authentication failed".toList]
 
+/-! ### the reporting wrappers: the instrumented server as a whole (transparency clause of C18)
+
+`instrument()` replaces `sio._trigger_event`, `manager.basic_enter_room`, `manager.basic_leave_room`
+and `manager.emit` (development mode), and hooks engine.io's connect / disconnect, by wrappers that
+(a) call the original and (b) `sio.emit(<report>, ..., namespace=admin_namespace)` — never with a
+callback.  In the model: one `Server.step` on the configuration whose registry is `instrumentReg`,
+then what the registered admin handlers `emit / join / leave / _disconnect` do if the step invoked
+one of them (API calls), then the reports, each one a `Server.step … (.emit ev d adminNs to [] none)`.
+The *content* of the reports (timestamps, serialised sockets, statistics) is a parameter: the claim
+of the property is about their absence from application namespaces. -/
+
+open Sio.Server
+
+/-- one `self.sio.emit(ev, data, to=…, namespace=self.admin_namespace)` of the instrumentation -/
+structure Report where
+  ev : Str
+  data : Data
+  to : Rooms.Target := .all
+
+/-- what the wrappers put into their reports, left abstract -/
+structure Payloads where
+  /-- `datetime.now(timezone.utc).isoformat()` -/
+  stamp : J
+  /-- `serialize_socket(sid, namespace, eio_sid)` -/
+  socket : Rooms.Sid → Ns → J
+  /-- `{'supportedFeatures': [...]}` of the `config` task -/
+  features : J
+  /-- does the statistics task fire after this input, and with which `server_stats` payload -/
+  stats : Srv → Input → Option J
+
+/-- `slot.ns` -/
+def slotNs : Slot → Ns
+  | .fn ns _ => ns
+  | .cls ns _ => ns
+
+/-- The packet `_handle_eio_message` hands to `_handle_connect/_disconnect/_event/_ack` for this
+    frame, if any: the decoded text frame, or the binary packet this frame completes (its type
+    given as EVENT / ACK). -/
+def arriving (dec : Str → Except Err (Packet × Nat)) (s : Srv) (t : Rooms.Eio) (v : J) : Option Packet :=
+  match s.binbuf.find? (fun e => e.1 = t) with
+  | some (_, part) =>
+    if part.need ≤ part.got.length then none
+    else
+      let got := part.got ++ [v]
+      if part.need = got.length then
+        let ty := if part.pkt.type = BINARY_EVENT then EVENT else ACK
+        match part.pkt.data with
+        | some j =>
+          match recon got j with
+          | .ok d => some { part.pkt with type := ty, data := some d }
+          | .error _ => none
+        | none => some { part.pkt with type := ty }
+      else none
+  | none =>
+    match v with
+    | .str (c :: cs) =>
+      match dec (c :: cs) with
+      | .ok (p, _) => some p
+      | .error _ => none
+    | .bin (_ :: _) => none
+    | other =>
+      match decodeOdd other with
+      | .ok (p, _) => some p
+      | .error _ => none
+
+def rStr (s : String) : Str := s.toList
+
+/-- `_trigger_event('disconnect', ns, sid, reason)` followed by `basic_disconnect`'s
+    `basic_leave_room` of every named room: `socket_disconnected`, then one `room_left` per room -/
+def reportsDisconnect (P : Payloads) (s : Srv) (ns : Ns) (sid : Rooms.Sid) (reason : Str) : List Report :=
+  { ev := rStr "socket_disconnected", data := .tuple [.str ns, .str sid, .str reason, P.stamp] } ::
+  (Rooms.getRooms s.rooms ns sid).map (fun r =>
+    { ev := rStr "room_left", data := .tuple [.str ns, .str r, .str sid, P.stamp] })
+
+/-- What the wrappers report for one input (development mode; `s` is the state before the input,
+    `s'` the state after it).  Transcribed from `_trigger_event`, `_basic_enter_room`,
+    `_basic_leave_room`, `_emit` and the `config` task of `admin_connect`; in any other mode only
+    `config` and the statistics are emitted. -/
+def reports (dec : Str → Except Err (Packet × Nat)) (cfg : Cfg) (adminNs : Ns) (mode : Str)
+    (P : Payloads) (s : Srv) (i : Input) (_outs : List Out) : List Report :=
+  let s' := (Server.step dec cfg s i).1
+  let dev := isDev mode
+  let wrapped : List Report :=
+    match i with
+    | .frame t v =>
+      match arriving dec s t v with
+      | none => []
+      | some p =>
+        let ns := p.nsp.getD ['/']
+        if p.type = CONNECT then
+          if s'.nextSid = s.nextSid then [] else
+          let sid := sidName s.nextSid
+          let member := Rooms.isMember s'.rooms ns none sid
+          (if dev then
+            [{ ev := rStr "room_joined", data := .tuple [.str ns, .str sid, .str sid, P.stamp] }] ++
+            (if s.environ.contains t then
+              [{ ev := rStr "socket_connected", data := .tuple [P.socket sid ns, P.stamp] }] else []) ++
+            (if member then [] else
+              [{ ev := rStr "room_left", data := .tuple [.str ns, .str sid, .str sid, P.stamp] }])
+           else []) ++
+          -- the `config` background task of an admitted admin
+          (if ns = adminNs ∧ member then
+            ({ ev := rStr "config", data := .one P.features, to := .one sid } : Report) ::
+            (if dev then
+              [{ ev := rStr "all_sockets",
+                 data := .one (.arr (s'.rooms.filterMap (fun e =>
+                   if e.room = none then some (P.socket e.sid e.ns) else none))),
+                 to := .one sid }] else [])
+           else [])
+        else if !dev then []
+        else if p.type = DISCONNECT then
+          match Rooms.sidOf s.rooms ns t with
+          | none => []
+          | some sid =>
+            if isConnected s sid ns then reportsDisconnect P s ns sid (rStr "client disconnect") else []
+        else if p.type = EVENT then
+          match Rooms.sidOf s.rooms ns t, p.data with
+          | some sid, some (.arr d) =>
+            if isConnected s sid ns && !cfg.asyncHandlers then
+              [{ ev := rStr "event_received", data := .tuple [.str ns, .str sid, .arr d, P.stamp] }]
+            else []
+          | _, _ => []
+        else []
+    | .eioLost t reason =>
+      if !dev || !s.socks.contains t then [] else
+      (namespacesOf s.rooms).flatMap (fun ns =>
+        match Rooms.sidOf s.rooms ns t with
+        | none => []
+        | some sid => reportsDisconnect P s ns sid reason)
+    | .settle =>
+      if !dev then [] else
+      s.bg.map (fun b =>
+        { ev := rStr "event_received",
+          data := .tuple [.str b.ns, .str b.sid, .arr (b.first :: b.rest), P.stamp] })
+    | .emit ev d ns to skip _ =>
+      if !dev || ns = adminNs || !Rooms.hasNs s.rooms ns then [] else
+      (Rooms.recipients s.rooms ns to skip).map (fun r =>
+        { ev := rStr "event_sent", data := .tuple [.str ns, .str r.1, .arr (.str ev :: d.pack), P.stamp] })
+    | .call ev d ns sid _ =>
+      if !dev || ns = adminNs || !cfg.asyncHandlers || !Rooms.hasNs s.rooms ns then [] else
+      (Rooms.recipients s.rooms ns (.one sid) []).map (fun r =>
+        { ev := rStr "event_sent", data := .tuple [.str ns, .str r.1, .arr (.str ev :: d.pack), P.stamp] })
+    | .apiDisconnect sid ns =>
+      if dev && isConnected s sid ns then reportsDisconnect P s ns sid (rStr "server disconnect") else []
+    | .enterRoom sid ns room =>
+      if dev && !room.isEmpty && (Rooms.enter s.rooms ns sid room).toBool then
+        [{ ev := rStr "room_joined", data := .tuple [.str ns, .str room, .str sid, P.stamp] }]
+      else []
+    | .leaveRoom sid ns room =>
+      if dev && !room.isEmpty then
+        [{ ev := rStr "room_left", data := .tuple [.str ns, .str room, .str sid, P.stamp] }]
+      else []
+    | .closeRoom ns room =>
+      if dev && !room.isEmpty then
+        (Rooms.roomMembers s.rooms ns (some room)).map (fun m =>
+          { ev := rStr "room_left", data := .tuple [.str ns, .str room, .str m.1, P.stamp] })
+      else []
+    | _ => []
+  wrapped ++ (match P.stats s i with
+    | some d => [{ ev := rStr "server_stats", data := .one d }]
+    | none => [])
+
+/-- `to=room_filter` as the admin UI sends it: `None`, a room / session id, or a list of them -/
+def roomFilter : Option J → Option Rooms.Target
+  | none => some .all
+  | some .null => some .all
+  | some (.str r) => some (.one r)
+  | some (.arr rs) =>
+    (rs.mapM (fun (j : J) => match j with | J.str r => some r | _ => none)).map Rooms.Target.many
+  | _ => none
+
+/-- What the handlers `admin_emit`, `admin_enter_room`, `admin_leave_room`, `admin_disconnect`
+    do, as API calls, when the server invoked one of them with `args` (= `sid :: event arguments`)
+    in state `s`; `[]` for every other output (and for argument shapes the handlers would choke
+    on). -/
+def mutatorCalls (adminNs : Ns) (s : Srv) : Out → List Input
+  | .invoke (.fn ns ev) args =>
+    if ns ≠ adminNs then [] else
+    if ev = rStr "emit" then
+      match args with
+      | _ :: .str n :: rf :: .str event :: data =>
+        match roomFilter (some rf) with
+        | some to => [.emit event (.tuple data) n to [] none]
+        | none => []
+      | _ => []
+    else if ev = rStr "join" then
+      match args with
+      | _ :: .str n :: .str room :: rest =>
+        match roomFilter rest.head? with
+        | some to => (Rooms.participants s.rooms n to).map (fun p => .enterRoom p.1 n room)
+        | none => []
+      | _ => []
+    else if ev = rStr "leave" then
+      match args with
+      | _ :: .str n :: .str room :: rest =>
+        match roomFilter rest.head? with
+        | some to => (Rooms.participants s.rooms n to).map (fun p => .leaveRoom p.1 n room)
+        | none => []
+      | _ => []
+    else if ev = rStr "_disconnect" then
+      match args with
+      | _ :: .str n :: _ :: rest =>
+        match roomFilter rest.head? with
+        | some to => (Rooms.participants s.rooms n to).map (fun p => .apiDisconnect p.1 n)
+        | none => []
+      | _ => []
+    else []
+  | _ => []
+
+/-- is this output the invocation of one of the admin handlers that act on the application -/
+def mutatorCalled (adminNs : Ns) : Out → Bool
+  | .invoke (.fn ns ev) _ => ns == adminNs && mutators.contains ev
+  | _ => false
+
+namespace Instrumented
+
+/-- the configuration after `instrument(mode=…, read_only=…, namespace=adminNs)` -/
+def cfg (c : Cfg) (adminNs : Ns) (mode : Str) (ro : Bool) : Cfg :=
+  { c with reg := instrumentReg c.reg adminNs mode ro }
+
+/-- the reports, one `sio.emit(…, namespace=adminNs)` after the other -/
+def emitReports (dec : Str → Except Err (Packet × Nat)) (c : Cfg) (adminNs : Ns) :
+    Srv → List Report → Srv × List Out
+  | s, [] => (s, [])
+  | s, r :: rs =>
+    let x := Server.step dec c s (.emit r.ev r.data adminNs r.to [] none)
+    let y := emitReports dec c adminNs x.1 rs
+    (y.1, x.2 ++ y.2)
+
+/-- One input on the instrumented server, for an arbitrary reporting policy `rep`. -/
+def stepWith (dec : Str → Except Err (Packet × Nat)) (c : Cfg) (adminNs : Ns) (mode : Str) (ro : Bool)
+    (rep : Srv → Input → List Out → List Report) (s : Srv) (i : Input) : Srv × List Out :=
+  let ci := cfg c adminNs mode ro
+  let r := Server.step dec ci s i
+  -- the API calls of the admin handlers this step invoked (none in read-only mode)
+  let m := Server.run dec ci r.1 (r.2.flatMap (mutatorCalls adminNs r.1))
+  let e := emitReports dec ci adminNs m.1 (rep s i (r.2 ++ m.2))
+  (e.1, r.2 ++ m.2 ++ e.2)
+
+/-- per-input outputs along a history -/
+def traceWith (dec : Str → Except Err (Packet × Nat)) (c : Cfg) (adminNs : Ns) (mode : Str) (ro : Bool)
+    (rep : Srv → Input → List Out → List Report) : Srv → List Input → Srv × List (Input × List Out)
+  | s, [] => (s, [])
+  | s, i :: is =>
+    let r := stepWith dec c adminNs mode ro rep s i
+    let rs := traceWith dec c adminNs mode ro rep r.1 is
+    (rs.1, (i, r.2) :: rs.2)
+
+/-- the instrumented server of `admin.py`: `stepWith` the transcribed reports -/
+def step (dec : Str → Except Err (Packet × Nat)) (c : Cfg) (adminNs : Ns) (mode : Str) (ro : Bool)
+    (P : Payloads) : Srv → Input → Srv × List Out :=
+  stepWith dec c adminNs mode ro (reports dec (cfg c adminNs mode ro) adminNs mode P)
+
+def trace (dec : Str → Except Err (Packet × Nat)) (c : Cfg) (adminNs : Ns) (mode : Str) (ro : Bool)
+    (P : Payloads) : Srv → List Input → Srv × List (Input × List Out) :=
+  traceWith dec c adminNs mode ro (reports dec (cfg c adminNs mode ro) adminNs mode P)
+
+/-- all outputs of a history, in order -/
+def run (dec : Str → Except Err (Packet × Nat)) (c : Cfg) (adminNs : Ns) (mode : Str) (ro : Bool)
+    (P : Payloads) (s : Srv) (h : List Input) : Srv × List Out :=
+  let r := trace dec c adminNs mode ro P s h
+  (r.1, r.2.flatMap (·.2))
+
+/-- does the queued handler resolve to a function or method -/
+def handled (reg : Registry) (b : Bg) : Bool :=
+  match resolve reg b.ns b.first (.str b.sid :: b.rest) with
+  | .ok (.fn _ _) => true
+  | .ok (.clsCall _ _) => true
+  | _ => false
+
+/-- The domain of the transparency theorem, per input: the step invoked none of
+    `emit / join / leave / _disconnect` (they act on the application by design), and — when
+    queued handlers are run — no queued admin event has a handler (the only one there can be
+    then is an EVENT literally named `connect`, which would consume an outcome of the
+    application's event script between two application events). -/
+def quietStep (c : Cfg) (adminNs : Ns) (mode : Str) (ro : Bool) (s : Srv) (i : Input)
+    (outs : List Out) : Bool :=
+  !(outs.any (mutatorCalled adminNs)) &&
+  (match i with
+   | .settle => s.bg.all (fun b => b.ns != adminNs || !handled (cfg c adminNs mode ro).reg b)
+   | _ => true)
+
+/-- `quietStep` at every input of the history, along the instrumented run -/
+def quiet (dec : Str → Except Err (Packet × Nat)) (c : Cfg) (adminNs : Ns) (mode : Str) (ro : Bool)
+    (rep : Srv → Input → List Out → List Report) : Srv → List Input → Bool
+  | _, [] => true
+  | s, i :: is =>
+    quietStep c adminNs mode ro s i (Server.step dec (cfg c adminNs mode ro) s i).2 &&
+    quiet dec c adminNs mode ro rep (stepWith dec c adminNs mode ro rep s i).1 is
+
+end Instrumented
+
+/-! ### the reference: the same server without instrumentation -/
+
+/-- Session ids and outcomes of handler invocations that one run consumes and the other does not:
+    the admin CONNECTs draw session ids and run `admin_connect`.  `eio.generate_id()` only promises
+    fresh ids and the script only says what the n-th invocation does, so the reference run is one
+    in which the id generator and the script are advanced by as much (C12's `runSkip`). -/
+structure Skip where
+  sid : Nat := 0
+  conn : Nat := 0
+  ev : Nat := 0
+  deriving Repr, DecidableEq
+
+def bumpBy (k : Skip) (s : Srv) : Srv :=
+  { s with nextSid := s.nextSid + k.sid, nConn := s.nConn + k.conn, nEv := s.nEv + k.ev }
+
+namespace Plain
+
+/-- per-input outputs of the uninstrumented server; before each input the generators skip -/
+def traceSkip (dec : Str → Except Err (Packet × Nat)) (c : Cfg) :
+    Srv → List (Skip × Input) → Srv × List (Input × List Out)
+  | s, [] => (s, [])
+  | s, (k, i) :: is =>
+    let r := Server.step dec c (bumpBy k s) i
+    let rs := traceSkip dec c r.1 is
+    (rs.1, (i, r.2) :: rs.2)
+
+def runSkip (dec : Str → Except Err (Packet × Nat)) (c : Cfg) (s : Srv) (h : List (Skip × Input)) :
+    Srv × List Out :=
+  let r := traceSkip dec c s h
+  (r.1, r.2.flatMap (·.2))
+
+end Plain
+
+/-! ### what the application side observes -/
+
+/-- exceptions of these inputs are *contained* (logged by engine.io / the background task): no
+    client and no application code sees them; those of API calls propagate to the caller -/
+def contained : Input → Bool
+  | .frame _ _ => true
+  | .eioLost _ _ => true
+  | .settle => true
+  | _ => false
+
+/-- visible on the application side: packets of namespaces other than the admin namespace,
+    invocations of handlers of other namespaces, callbacks, results of API calls and the
+    exceptions they raise -/
+def appVisible (adminNs : Ns) (cont : Bool) : Out → Bool
+  | .send _ p => p.nsp != some adminNs
+  | .invoke slot _ => slotNs slot != adminNs
+  | .raised _ => !cont
+  | _ => true
+
+def appView (adminNs : Ns) (i : Input) (outs : List Out) : List Out :=
+  outs.filter (appVisible adminNs (contained i))
+
+/-- the application-side observation of a run, input by input -/
+def observeTrace (adminNs : Ns) (tr : List (Input × List Out)) : List (Input × List Out) :=
+  tr.map (fun x => (x.1, appView adminNs x.1 x.2))
+
+/-- the state restricted to application namespaces: rooms and queued handlers of the admin
+    namespace removed (callbacks, ack counters, sessions, environ, reassembly buffers are kept
+    whole) -/
+def appPart (adminNs : Ns) (s : Srv) : Srv :=
+  { s with rooms := s.rooms.filter (fun e => e.ns != adminNs),
+           bg := s.bg.filter (fun b => b.ns != adminNs) }
+
+/-- … and without the generators' positions -/
+def appState (adminNs : Ns) (s : Srv) : Srv :=
+  { appPart adminNs s with nextSid := 0, nConn := 0, nEv := 0 }
+
+/-- The application does not address the admin namespace through the server API, and the history
+    has no blocking `call()` (its nested inputs cannot be given skips). -/
+def appInput (adminNs : Ns) : Input → Bool
+  | .emit _ _ ns _ _ _ => ns != adminNs
+  | .call _ _ _ _ _ => false
+  | .apiDisconnect _ ns => ns != adminNs
+  | .enterRoom _ ns _ => ns != adminNs
+  | .leaveRoom _ ns _ => ns != adminNs
+  | .closeRoom ns _ => ns != adminNs
+  | .rooms _ ns => ns != adminNs
+  | .getSession _ ns => ns != adminNs
+  | .saveSession _ ns _ => ns != adminNs
+  | .sessionBlock _ ns _ _ => ns != adminNs
+  | _ => true
+
 end Sio.Admin
